@@ -5,8 +5,6 @@ Everything is measured from the working tree of $VERIF_REPO and from the running
 * the character class of the inline project-name pattern in ``parse_wheel_filename`` (found in the AST of the
   function, compiled with the flags written there, atom swept),
 * the ``\\d`` set of ``_build_tag_regex`` with the value ``int()`` gives each digit, and the complement of ``.``,
-* the text and flags of ``_normalized_regex`` (outside the translator's fragment: the hand-written matcher mirrors
-  exactly this text, and a theorem pins the text),
 * ``str.lower`` per code point (non-ASCII entries only; U+03A3 gets its non-final form — see C13 ``partial``).
 """
 import ast
@@ -90,13 +88,14 @@ def _name_tables():
     info["separators"] = seps
     # --- inline project-name pattern of parse_wheel_filename
     calls = _inline_name_pattern(utils)
-    wn_ok, wn_ranges, wn_method = False, [], ""
+    wn_ok, wn_ranges, wn_method, wn_dollar = False, [], "", True
     if len(calls) == 1:
         wn_method, pat, flags = calls[0]
         c = re.compile(pat, flags)
         tree = P.parse(c.pattern, c.flags)
         items = list(tree)
-        if (len(items) == 3 and items[0] == (P.AT, P.AT_BEGINNING) and items[2] == (P.AT, P.AT_END)):
+        if (len(items) == 3 and items[0] == (P.AT, P.AT_BEGINNING) and items[2] in ((P.AT, P.AT_END), (P.AT, P.AT_END_STRING))):
+            wn_dollar = items[2] == (P.AT, P.AT_END)
             atom = _single_repeat([items[1]], 0)
             if atom is not None:
                 _, wn_ranges = T.sweep(tree.state, c.flags, *atom)
@@ -124,8 +123,6 @@ def _name_tables():
                         digit_tab.append((start, cp - 1, int(chr(start))))
                         start = cp
     info["digit_ranges"] = len(digit_tab)
-    # --- _normalized_regex text
-    nr = utils._normalized_regex
     # --- str.lower per code point
     single, special = [], []
     for cp in range(128, 0x110000):
@@ -163,15 +160,14 @@ def canonStructureOk : Bool := {b(canon_ok)}
 def separators : List Nat := {seps}
 /-- the inline pattern of `parse_wheel_filename` is `^<one atom>*$` used with `re.match`; ranges of the atom -/
 def wheelNameStructureOk : Bool := {b(wn_ok)}
+/-- the end anchor is `$` (also matches before one trailing newline) rather than `\\Z` -/
+def wheelNameDollar : Bool := {b(wn_dollar)}
 def wheelNameRanges : List (Nat × Nat) := {_ranges_lean(wn_ranges)}
 /-- `_build_tag_regex` is `(<atom>+)(<atom>*)`: `(lo, hi, v)` — code points `lo..hi` are accepted by the first atom and
 `int()` maps `cp` to `(v + cp - lo) % 10`; `notDot`: code points the second atom rejects -/
 def buildStructureOk : Bool := {b(b_ok)}
 def digitTable : List (Nat × Nat × Nat) := [{", ".join(f"({lo}, {hi}, {v})" for lo, hi, v in digit_tab)}]
 def notDot : List (Nat × Nat) := {_ranges_lean(nodot)}
-/-- text and flags of `_normalized_regex` (modelled by hand in `PkgModel/Names.lean`) -/
-def normalizedPattern : List Nat := {T.lean_str(nr.pattern)}
-def normalizedFlags : Nat := {int(nr.flags)}
 /-- `chr(cp).lower()` for every non-ASCII code point it changes: `(lo, hi, step, t)` — code points `cp` in `lo..hi` with
 `(cp - lo) % step = 0` lower to the single code point `t + (cp - lo)`; `lowerSpecial`: the multi-character cases -/
 def lowerRuns : List (Nat × Nat × Nat × Nat) := [{", ".join(f"({a}, {b_}, {c}, {d})" for a, b_, c, d in runs)}]
